@@ -149,6 +149,8 @@ def ndl(events, alpha, betas, lambda_=1.0, *,
         raise ValueError("remove_duplicates must be None, True or False")
     if not isinstance(events, (str, os.PathLike)):
         raise ValueError("'events' need to be the path to a gzipped event file not {}".format(type(events)))
+    # path objects are accepted; the meta data store the path as a string
+    events = os.fspath(events)
 
     weights_ini = weights
     wall_time_start = time.perf_counter()
